@@ -26,3 +26,12 @@ pub fn fnv_str(s: &str) -> u64 {
 pub fn hash_debug<T: std::fmt::Debug>(v: &T) -> u64 {
     fnv(format!("{v:?}").as_bytes())
 }
+
+/// The longest prefix of `s` of at most `n` bytes that ends on a character boundary.
+pub fn clip(s: &str, n: usize) -> &str {
+    let mut cut = s.len().min(n);
+    while !s.is_char_boundary(cut) {
+        cut -= 1;
+    }
+    &s[..cut]
+}
